@@ -129,7 +129,9 @@ def handleFraming (case obs : List String) : String × String :=
                    ("earlier-messages-delivered-before-status", delivered == expected),
                    ("status-code", (st.bind codeOfTok) == expCode),
                    ("nothing-sent-after-status", e.isNone || c.cfg.server == false ||
-                       (obsData obs).flatten == expected)])
+                       (obsData obs).flatten == expected),
+                   -- the refusal must REACH the consumer: hyper consults `is_end_stream()` between polls
+                   ("is-end-stream-only-when-nothing-more-comes", endStreamOk c.cfg.server obs)])
       | .dec c =>
           let m := runDec c
           -- walk headers only (an oversized declared length need not be followed by a payload):
